@@ -5,42 +5,42 @@
 //   I3  no two live slots hold keys with equal contents
 //   I4  every live entry is reachable from its home slot (hash % capacity) without crossing NULL
 // Asserted: INV holds again afterwards, the abstract dictionary (key contents -> value, obtained by
-// scanning ALL slots, not by probing) is updated exactly, unreachable()/assert() are not hit.
-// Because the start state is arbitrary, one step covers histories of any length.
+// scanning ALL slots, not by probing) is updated exactly (operated key: last write wins / deleted
+// means absent; an arbitrary OTHER key X, present or not: untouched), unreachable()/assert() are
+// not hit.  Because the start state is arbitrary, one step covers histories of any length.
 //
-// Keys come from a pool of NPOOL key objects with symbolic bytes and symbolic length 0..KLEN; the
-// real fnv_hash runs on them, so home slots, collisions and probe overlap are all symbolic.  Slot
-// contents are given in IN as pool indices (-1 NULL, -2 TOMBSTONE) and the bucket array is built
-// here.  The operation key is pool key 0 (the pool is symmetric: every key has symbolic contents,
-// any slot may hold any pool key, another pool key may have the same contents as key 0, and
-// hashmap.c never compares key addresses except against NULL/TOMBSTONE).
+// Keys: every slot s owns a key object KEYS[s] with symbolic bytes and symbolic length 1..KLEN; the
+// operated key is one more object KEYS[CAP], the observer key X another (KEYS[CAP+1]); contents may
+// coincide arbitrarily.  The real fnv_hash runs on them, so home slots, collisions and probe
+// overlap are all symbolic.  Slot kinds are given in IN (0 NULL, 1 TOMBSTONE, 2 live) and the
+// bucket array is built here (IN holds no pointers, so counterexamples replay natively).
 #include "common.h"
 #include "assert_hook.h"
 
 #ifndef CAP
-#define CAP 4          // capacity of the start state
-#endif
-#ifndef NPOOL
-#define NPOOL 3        // key objects
+#define CAP 4            // capacity of the start state
 #endif
 #ifndef KLEN
-#define KLEN 2         // max key length in bytes
+#define KLEN 2           // max key length in bytes
 #endif
-#define MAXCAP (2 * CAP) // largest capacity rehash may choose here (asserted); post-state loops unwind to it
+#define MAXCAP (2 * CAP) // largest capacity rehash may choose from CAP (asserted)
+#define NKEYS (CAP + 2)
+#define OPK CAP          // index of the operated key
+#define XK (CAP + 1)     // index of the observer key
 
-// calloc contract stub: fresh zeroed storage.  A fixed-size static arena instead of a cbmc dynamic
-// object of symbolic size (which sent cbmc to >10 GB); requests are asserted to fit.
+// calloc contract stub: fresh zeroed storage, from a fixed arena (a cbmc dynamic object of
+// symbolic size sent cbmc beyond 10 GB); requests are asserted to fit.
 static int verif_unreachable;
 static int verif_callocs;
 static void *verif_calloc(size_t n, size_t sz);
 #define calloc(n, sz) verif_calloc((n), (sz))
 #include "hashmap.c"
 #undef calloc
-static HashEntry verif_arena[2][MAXCAP];
+static HashEntry verif_arena0[MAXCAP], verif_arena1[MAXCAP];
 static void *verif_calloc(size_t n, size_t sz) {
   VASSERT(verif_callocs < 2, "harness arena: at most two bucket arrays are allocated in one step");
   VASSERT(n <= MAXCAP && sz == sizeof(HashEntry), "harness arena: requested bucket array fits MAXCAP entries");
-  return verif_arena[verif_callocs++];
+  return verif_callocs++ == 0 ? verif_arena0 : verif_arena1;
 }
 
 // environment of hashmap.c: unreachable() expands to error(); hashmap_test() uses format()
@@ -52,57 +52,60 @@ noreturn void error(char *fmt, ...) {
 char *format(char *fmt, ...) { return 0; }
 
 struct IN_t {
-  unsigned char kb[NPOOL][KLEN];   // key bytes
-  unsigned char klen[NPOOL];       // key lengths 0..KLEN
-  signed char slot[CAP];           // -1 NULL, -2 TOMBSTONE, p>=0 pool key p
-  uint32_t sval[CAP];              // value stored in a non-NULL slot
-  int skl[CAP];                    // stale keylen left in a tombstone slot
-  uint32_t opval;                  // value passed to put
+  unsigned char kind[CAP];          // 0 NULL, 1 TOMBSTONE, 2 live
+  unsigned char kb[NKEYS][KLEN];    // key bytes: slot keys, operated key, observer key
+  unsigned char kl[NKEYS];          // key lengths 1..KLEN
+  unsigned char sval[CAP];          // value stored in a non-NULL slot (opaque; small ints as pointers)
+  int skl[CAP];                     // stale keylen left in a tombstone slot
+  unsigned char opval;              // value passed to put
+  // state produced by the rehash CONTRACT stub (only used by h_put_trigger)
+  unsigned char grow;               // new capacity: CAP or 2*CAP
+  signed char slot2[MAXCAP];        // -1 NULL, s = the entry of old slot s moved here
 } IN;
 struct IN_t nondet_IN(void);
 
 #define V(x) ((void *)(uintptr_t)(x))
 
-static char K[NPOOL][KLEN + 1];
-static int KL[NPOOL];
-static uint64_t HV[NPOOL];         // fnv_hash of each pool key, computed once
-static bool EQ[NPOOL][NPOOL];      // content equality of pool keys
+static char KEYS[NKEYS][KLEN + 1];
+static int KL[NKEYS];
+static uint64_t HV[NKEYS];           // fnv_hash of each key object, computed once (real fnv_hash)
+static bool EQ[NKEYS][NKEYS];        // content equality of key objects
 static HashEntry B[CAP];
 static HashMap map;
 
 static void build(void) {
-  for (int p = 0; p < NPOOL; p++) {
-    __CPROVER_assume(IN.klen[p] <= KLEN);
-    KL[p] = IN.klen[p];
-    for (int i = 0; i < KLEN; i++) K[p][i] = IN.kb[p][i];
-    HV[p] = fnv_hash(K[p], KL[p]);
+  for (int p = 0; p < NKEYS; p++) {
+    __CPROVER_assume(IN.kl[p] >= 1 && IN.kl[p] <= KLEN);
+    KL[p] = IN.kl[p];
+    for (int i = 0; i < KLEN; i++) KEYS[p][i] = IN.kb[p][i];
+    HV[p] = fnv_hash(KEYS[p], KL[p]);
   }
-  for (int p = 0; p < NPOOL; p++)
-    for (int q = 0; q < NPOOL; q++) {
+  for (int p = 0; p < NKEYS; p++)
+    for (int q = 0; q < NKEYS; q++) {
       bool e = KL[p] == KL[q];
       for (int i = 0; i < KLEN; i++)
-        if (i < KL[p] && K[p][i] != K[q][i]) e = false;
+        if (i < KL[p] && KEYS[p][i] != KEYS[q][i]) e = false;
       EQ[p][q] = e;
     }
   int used = 0;
   for (int s = 0; s < CAP; s++) {
-    int x = IN.slot[s];
-    __CPROVER_assume(x >= -2 && x < NPOOL);
-    if (x == -1) { B[s].key = NULL; B[s].keylen = 0; B[s].val = NULL; }
-    else if (x == -2) { B[s].key = TOMBSTONE; B[s].keylen = IN.skl[s]; B[s].val = V(IN.sval[s]); used++; }
-    else { B[s].key = K[x]; B[s].keylen = KL[x]; B[s].val = V(IN.sval[s]); used++; }
+    int x = IN.kind[s];
+    __CPROVER_assume(x <= 2);
+    if (x == 0) { B[s].key = NULL; B[s].keylen = 0; B[s].val = NULL; }
+    else if (x == 1) { B[s].key = TOMBSTONE; B[s].keylen = IN.skl[s]; B[s].val = V(IN.sval[s]); used++; }
+    else { B[s].key = KEYS[s]; B[s].keylen = KL[s]; B[s].val = V(IN.sval[s]); used++; }
   }
   map.buckets = B;
   map.capacity = CAP;
   map.used = used;
 }
 
-// pool index of a slot's key pointer: -1 NULL, -2 TOMBSTONE, -3 foreign
+// key-object index of a slot's key pointer: -1 NULL, -2 TOMBSTONE, -3 foreign
 static int kidx(char *key) {
   if (key == NULL) return -1;
   if (key == TOMBSTONE) return -2;
-  for (int p = 0; p < NPOOL; p++)
-    if (key == K[p]) return p;
+  for (int p = 0; p < NKEYS; p++)
+    if (key == KEYS[p]) return p;
   return -3;
 }
 
@@ -122,7 +125,7 @@ static bool inv(HashMap *m) {
     if (x == -1) nulls++; else nonnull++;
     if (x >= 0) {
       if (m->buckets[s].keylen != KL[x]) ok = false;
-      home[s] = (int)(HV[x] % (uint64_t)cap);
+      home[s] = (int)(HV[x] & (uint64_t)(cap - 1));  // == HV[x] % cap for a power of two (checked above)
     } else home[s] = 0;
   }
   if (m->used != nonnull) ok = false;     // I1
@@ -141,83 +144,125 @@ static bool inv(HashMap *m) {
   return ok;
 }
 
-// Abstract dictionary: for each pool key p, is a key with p's contents live anywhere in the table,
-// and with which value (scan of all slots; with I3 the entry is unique).
-typedef struct { bool present[NPOOL]; void *val[NPOOL]; int live; int tombs; } Dict;
-static Dict abs_dict(HashMap *m) {
-  Dict d; d.live = 0; d.tombs = 0;
-  for (int p = 0; p < NPOOL; p++) { d.present[p] = false; d.val[p] = NULL; }
+// Abstract dictionary, observed at key object q: is a key with q's contents live anywhere in the
+// table, and with which value (scan of all slots; with I3 the entry is unique).
+typedef struct { bool present; void *val; } Abs;
+static Abs abs_at(HashMap *m, int q) {
+  Abs a = { false, NULL };
   for (int s = 0; s < MAXCAP; s++) {
     if (s >= m->capacity) break;
     int x = kidx(m->buckets[s].key);
-    if (x == -2) d.tombs++;
-    if (x < 0) continue;
-    d.live++;
-    for (int p = 0; p < NPOOL; p++)
-      if (EQ[x][p]) { d.present[p] = true; d.val[p] = m->buckets[s].val; }
+    if (x >= 0 && EQ[x][q]) { a.present = true; a.val = m->buckets[s].val; }
   }
-  return d;
+  return a;
+}
+static int count_kind(HashMap *m, int kind) {   // kind: -1 NULL, -2 TOMBSTONE, 0 live
+  int n = 0;
+  for (int s = 0; s < MAXCAP; s++) {
+    if (s >= m->capacity) break;
+    int x = kidx(m->buckets[s].key);
+    if (kind == 0 ? x >= 0 : x == kind) n++;
+  }
+  return n;
 }
 
-static void others_untouched(Dict *d0, Dict *d1) {
-  for (int p = 1; p < NPOOL; p++) {
-    if (EQ[0][p]) continue;
-    VASSERT(d1->present[p] == d0->present[p], "a key other than the operated one changed presence");
-    VASSERT(!d0->present[p] || d1->val[p] == d0->val[p], "a key other than the operated one changed value");
+static void observer_untouched(Abs x0, Abs x1) {
+  if (EQ[OPK][XK]) return;
+  VASSERT(x1.present == x0.present, "a key other than the operated one changed presence");
+  VASSERT(!x0.present || x1.val == x0.val, "a key other than the operated one changed value");
+}
+
+// ---- rehash stubs (selected per harness with goto-instrument --replace-calls) ----------------
+void stub_rehash_never(HashMap *m) {
+  VASSERT(0, "rehash() called although the table is below the 70% load trigger");
+  __CPROVER_assume(0);
+}
+
+// Contract of rehash() as established by h_rehash_modular (+ h_put for each insertion) and, in the
+// thorough tier, by h_rehash_real on the real code: afterwards the map is an arbitrary valid table
+// with the same dictionary, no tombstones, used == number of keys, load < 50%, capacity CAP or 2*CAP.
+static int stub_rehash_calls;
+static int stub_rehash_load;
+void stub_rehash_contract(HashMap *m) {
+  VASSERT(m == &map, "rehash applied to the operated map");
+  stub_rehash_calls++;
+  stub_rehash_load = (m->used * 100) / m->capacity;
+  int cap2 = IN.grow ? 2 * CAP : CAP;
+  int seen[CAP];
+  for (int s = 0; s < CAP; s++) seen[s] = 0;
+  int n = 0;
+  for (int t = 0; t < MAXCAP; t++) {
+    verif_arena0[t].key = NULL; verif_arena0[t].keylen = 0; verif_arena0[t].val = NULL;
+    if (t >= cap2) continue;
+    int s = IN.slot2[t];
+    __CPROVER_assume(s >= -1 && s < CAP);
+    if (s < 0) continue;
+    __CPROVER_assume(B[s].key != NULL && B[s].key != TOMBSTONE);
+    verif_arena0[t] = B[s];
+    seen[s]++;
+    n++;
   }
+  for (int s = 0; s < CAP; s++)
+    __CPROVER_assume(seen[s] == ((B[s].key != NULL && B[s].key != TOMBSTONE) ? 1 : 0));
+  m->buckets = verif_arena0;
+  m->capacity = cap2;
+  m->used = n;
+  __CPROVER_assume(inv(m));
+  __CPROVER_assume((n * 100) / cap2 < LOW_WATERMARK);
 }
 
 // ---- put ------------------------------------------------------------------------------------
-void h_put(void) {
+// h_put: states below the trigger (cbmc: rehash -> stub_rehash_never, so "no rehash below 70%" is
+// itself asserted).  h_put_trigger: states at/above the trigger (cbmc: rehash -> contract stub).
+// h_put_real: any state, everything real (thorough tier).
+static void put_common(int mode) {
   HAVOC_IN();
   build();
   __CPROVER_assume(inv(&map));
-#ifdef NO_REHASH   // cheaper variant: only states below the load-factor trigger
-  __CPROVER_assume((map.used * 100) / map.capacity < HIGH_WATERMARK);
-#endif
-  Dict d0 = abs_dict(&map);
-  int used0 = map.used;
+  int load0 = (map.used * 100) / map.capacity;
+  if (mode == 0) __CPROVER_assume(load0 < HIGH_WATERMARK);
+  if (mode == 1) __CPROVER_assume(load0 >= HIGH_WATERMARK);
+  Abs k0 = abs_at(&map, OPK), x0 = abs_at(&map, XK);
+  int live0 = count_kind(&map, 0), tombs0 = count_kind(&map, -2);
 
-  hashmap_put2(&map, K[0], KL[0], V(IN.opval));
+  hashmap_put2(&map, KEYS[OPK], KL[OPK], V(IN.opval));
 
   VASSERT(!verif_unreachable, "unreachable() not reached");
-  VASSERT(inv(&map), "representation invariant preserved by hashmap_put2 (no duplicate key, reachable, used, a NULL slot)");
-  Dict d1 = abs_dict(&map);
-  for (int p = 0; p < NPOOL; p++)
-    if (EQ[0][p]) {
-      VASSERT(d1.present[p], "put: key present afterwards");
-      VASSERT(d1.val[p] == V(IN.opval), "put: last write wins");
-    }
-  others_untouched(&d0, &d1);
-  VASSERT(d1.live == d0.live + (d0.present[0] ? 0 : 1), "put: number of live keys grows by one only for a new key");
-  // load-factor trigger, observed on the result: below 70% the table is not rebuilt; at or above
-  // 70% it is rebuilt (no tombstones left, load back under 50% + the new key)
-  if ((used0 * 100) / CAP < 70) {
+  VASSERT(inv(&map), "representation invariant preserved by hashmap_put2 (no duplicate key, all reachable, used, a NULL slot)");
+  Abs k1 = abs_at(&map, OPK), x1 = abs_at(&map, XK);
+  VASSERT(k1.present && k1.val == V(IN.opval), "put: key present afterwards, last write wins");
+  observer_untouched(x0, x1);
+  VASSERT(count_kind(&map, 0) == live0 + (k0.present ? 0 : 1), "put: number of live keys grows by one exactly for a new key");
+  VASSERT(count_kind(&map, -2) <= tombs0, "put: creates no tombstone");
+  if (load0 < 70) {
     VASSERT(map.buckets == B && map.capacity == CAP, "put below 70% load does not rebuild the table");
   } else {
     VASSERT(map.buckets != B, "put at >=70% load rebuilds the table");
-    VASSERT(d1.tombs == 0, "rebuilt table has no tombstones");
-    VASSERT(((map.used - 1) * 100) / map.capacity < LOW_WATERMARK || d0.present[0], "rebuilt table is under 50% load before the insertion");
+    VASSERT(count_kind(&map, -2) == 0, "rebuilt table has no tombstones");
   }
-  // public view: get2 returns the value
-  VASSERT(hashmap_get2(&map, K[0], KL[0]) == V(IN.opval), "get2 after put2 returns the value put");
+  if (mode == 1)
+    VASSERT(stub_rehash_calls == 1 && stub_rehash_load >= 70, "rehash called exactly once, at >=70% load");
+  VASSERT(hashmap_get2(&map, KEYS[OPK], KL[OPK]) == V(IN.opval), "get2 after put2 returns the value put");
   VCOVER();
 }
+void h_put(void) { put_common(0); }
+void h_put_trigger(void) { put_common(1); }
+void h_put_real(void) { put_common(2); }
 
 // ---- get ------------------------------------------------------------------------------------
 void h_get(void) {
   HAVOC_IN();
   build();
   __CPROVER_assume(inv(&map));
-  Dict d0 = abs_dict(&map);
+  Abs k0 = abs_at(&map, OPK);
   HashEntry B0[CAP];
   for (int s = 0; s < CAP; s++) B0[s] = B[s];
   int used0 = map.used;
 
-  void *r = hashmap_get2(&map, K[0], KL[0]);
+  void *r = hashmap_get2(&map, KEYS[OPK], KL[OPK]);
 
   VASSERT(!verif_unreachable, "unreachable() not reached");
-  VASSERT(r == (d0.present[0] ? d0.val[0] : NULL), "get2 returns the stored value, or NULL for an absent key");
+  VASSERT(r == (k0.present ? k0.val : NULL), "get2 returns the stored value, or NULL for an absent key");
   VASSERT(map.buckets == B && map.capacity == CAP && map.used == used0, "get2 does not modify the map header");
   for (int s = 0; s < CAP; s++)
     VASSERT(B[s].key == B0[s].key && B[s].keylen == B0[s].keylen && B[s].val == B0[s].val, "get2 does not modify any slot");
@@ -229,32 +274,35 @@ void h_delete(void) {
   HAVOC_IN();
   build();
   __CPROVER_assume(inv(&map));
-  Dict d0 = abs_dict(&map);
+  Abs k0 = abs_at(&map, OPK), x0 = abs_at(&map, XK);
+  int live0 = count_kind(&map, 0);
 
-  hashmap_delete2(&map, K[0], KL[0]);
+  hashmap_delete2(&map, KEYS[OPK], KL[OPK]);
 
   VASSERT(!verif_unreachable, "unreachable() not reached");
   VASSERT(map.buckets == B && map.capacity == CAP, "delete2 does not rebuild the table");
   VASSERT(inv(&map), "representation invariant preserved by hashmap_delete2");
-  Dict d1 = abs_dict(&map);
-  for (int p = 0; p < NPOOL; p++)
-    if (EQ[0][p]) VASSERT(!d1.present[p], "delete: key absent afterwards");
-  others_untouched(&d0, &d1);
-  VASSERT(d1.live == d0.live - (d0.present[0] ? 1 : 0), "delete: exactly the deleted key disappears");
-  VASSERT(hashmap_get2(&map, K[0], KL[0]) == NULL, "get2 after delete2 returns NULL");
+  Abs k1 = abs_at(&map, OPK), x1 = abs_at(&map, XK);
+  VASSERT(!k1.present, "delete: key absent afterwards");
+  observer_untouched(x0, x1);
+  VASSERT(count_kind(&map, 0) == live0 - (k0.present ? 1 : 0), "delete: exactly the deleted key disappears");
+  VASSERT(hashmap_get2(&map, KEYS[OPK], KL[OPK]) == NULL, "get2 after delete2 returns NULL");
   VCOVER();
 }
 
-// ---- rehash ---------------------------------------------------------------------------------
+// ---- rehash, everything real ------------------------------------------------------------------
 // rehash() from ANY valid state (whatever the load): dictionary preserved, tombstones gone,
 // used == number of keys, load under 50%, and it never nests (cbmc: --unwindset rehash:0 makes a
-// nested call an unwinding-assertion failure; also implied by load < 50% at the end since `used`
-// only grows while the new table is filled).
-void h_rehash(void) {
+// nested call an unwinding-assertion failure).
+void h_rehash_real(void) {
   HAVOC_IN();
   build();
   __CPROVER_assume(inv(&map));
-  Dict d0 = abs_dict(&map);
+#ifdef MAXLIVE
+  __CPROVER_assume(count_kind(&map, 0) <= MAXLIVE);
+#endif
+  Abs x0 = abs_at(&map, XK);
+  int live0 = count_kind(&map, 0);
 
   rehash(&map);
 
@@ -262,14 +310,66 @@ void h_rehash(void) {
   VASSERT(!verif_assert_failed, "no assert() failed");
   VASSERT(map.buckets != B, "rehash builds a new bucket array");
   VASSERT(inv(&map), "representation invariant holds after rehash");
-  Dict d1 = abs_dict(&map);
-  for (int p = 0; p < NPOOL; p++) {
-    VASSERT(d1.present[p] == d0.present[p], "rehash preserves the key set");
-    VASSERT(!d0.present[p] || d1.val[p] == d0.val[p], "rehash preserves values");
-  }
-  VASSERT(d1.tombs == 0, "rehash removes all tombstones");
-  VASSERT(d1.live == d0.live && map.used == d0.live, "used == number of keys after rehash");
+  Abs x1 = abs_at(&map, XK);
+  VASSERT(x1.present == x0.present, "rehash preserves the key set");
+  VASSERT(!x0.present || x1.val == x0.val, "rehash preserves values");
+  VASSERT(count_kind(&map, -2) == 0, "rehash removes all tombstones");
+  VASSERT(count_kind(&map, 0) == live0 && map.used == live0, "used == number of keys after rehash");
   VASSERT(map.capacity >= CAP, "rehash never shrinks");
   VASSERT((map.used * 100) / map.capacity < LOW_WATERMARK, "load under 50% after rehash");
+  VCOVER();
+}
+
+// ---- rehash, modular: the real rehash() against the CONTRACT of hashmap_put2 -----------------
+// cbmc: hashmap_put2 -> stub_put_contract.  The stub logs each call and performs what h_put proves
+// about a put of a NEW key into a valid table below the trigger: used grows by one.  Asserted: the
+// target is a fresh zeroed power-of-two table no smaller than the old one; every insertion happens
+// below the 70% trigger (so the real put2 would not nest a rehash, and h_put applies to it); the
+// inserted (key,len,val) triples are exactly the live entries of the old table, each once; the
+// asserts inside rehash hold; *map becomes the new table.  With h_put (inductive step: each such
+// insertion keeps INV, adds exactly that key, creates no tombstone) this yields the contract used
+// by stub_rehash_contract.
+static int plog_n;
+static HashMap *plog_map;
+static char *plog_key[CAP]; static int plog_len[CAP]; static void *plog_val[CAP];
+void stub_put_contract(HashMap *m, char *key, int keylen, void *val) {
+  if (plog_n == 0) {
+    plog_map = m;
+    VASSERT(m != &map && m->buckets != NULL && m->buckets != B, "rehash fills a new table");
+    VASSERT(m->used == 0, "new table starts with used == 0");
+    VASSERT(m->capacity >= CAP && m->capacity <= MAXCAP && !(m->capacity & (m->capacity - 1)), "new capacity is a power of two, not smaller than the old one");
+    for (int t = 0; t < MAXCAP; t++)
+      if (t < m->capacity) VASSERT(m->buckets[t].key == NULL, "new table starts all-NULL");
+  }
+  VASSERT(m == plog_map, "all insertions go to the same new table");
+  VASSERT((m->used * 100) / m->capacity < HIGH_WATERMARK, "insertion during rehash happens below the 70% trigger (no nested rehash)");
+  VASSERT(plog_n < CAP, "no more insertions than slots");
+  if (plog_n < CAP) { plog_key[plog_n] = key; plog_len[plog_n] = keylen; plog_val[plog_n] = val; }
+  plog_n++;
+  m->used++;
+}
+
+void h_rehash_modular(void) {
+  HAVOC_IN();
+  build();
+  __CPROVER_assume(inv(&map));
+  int live0 = count_kind(&map, 0);
+
+  rehash(&map);
+
+  VASSERT(!verif_unreachable, "unreachable() not reached");
+  VASSERT(!verif_assert_failed, "no assert() inside rehash failed");
+  VASSERT(plog_n == live0, "rehash re-inserts as many entries as there were live keys");
+  // live slots are visited in slot order: the j-th logged insertion is the j-th live slot
+  int j = 0;
+  for (int s = 0; s < CAP; s++) {
+    if (IN.kind[s] != 2) continue;
+    if (j < CAP) VASSERT(plog_key[j] == KEYS[s] && plog_len[j] == KL[s] && plog_val[j] == V(IN.sval[s]), "rehash re-inserts exactly the live entries (key, length, value)");
+    j++;
+  }
+  VASSERT(map.buckets == verif_arena0 && map.used == live0, "map now is the new table, used == number of keys");
+  VASSERT(map.capacity >= CAP && map.capacity <= MAXCAP && !(map.capacity & (map.capacity - 1)), "capacity is a power of two, not smaller");
+  VASSERT((live0 * 100) / map.capacity < LOW_WATERMARK, "load under 50% after rehash");
+  VASSERT(map.capacity == CAP || (live0 * 100) / (map.capacity / 2) >= LOW_WATERMARK, "capacity is the smallest doubling with load under 50%");
   VCOVER();
 }
